@@ -248,9 +248,14 @@ class Outcome:
             self.mismatches.append({"what": what, "input": case, "impl": impl, "model": model})
 
     def fail(self, what, case, observed, expected=None, key=None):
-        if len(self.failures) < 50:
+        # at most 5 records per kind of failure (a known finding met a hundred times must not crowd out another
+        # failure), at most 200 in all
+        k = key or what
+        self._per_key = getattr(self, "_per_key", {})
+        self._per_key[k] = self._per_key.get(k, 0) + 1
+        if self._per_key[k] <= 5 and len(self.failures) < 200:
             self.failures.append({"what": what, "input": case, "observed": observed,
-                                  "expected": expected, "key": key or what})
+                                  "expected": expected, "key": k})
 
 
 def load_known_findings():
